@@ -142,7 +142,8 @@ class NativeSlave:
     WMIN = 3
     RMIN = 5
 
-    def __init__(self, ports, *, ready_pattern=None, wlat=None, rlat=None, qmax=8, init=None, bg=None):
+    def __init__(self, ports, *, ready_pattern=None, wlat=None, rlat=None, qmax=8, init=None, bg=None, apply_lost=False):
+        self.apply_lost = apply_lost
         self.ports = list(ports)
         self.ready = [schedule_iter(ready_pattern) for _ in self.ports]
         self.wlat = wlat or [self.WMIN]
@@ -177,7 +178,8 @@ class NativeSlave:
                 we = get(p.wdata.we)
                 if not v:
                     self.lost.append(("W-novalid", t, pi, addr))
-                else:
+                if v or self.apply_lost:
+                    # the real crossbar takes wdata.data / wdata.we in the strobe cycle whether or not wdata.valid is high
                     old = self.read_mem(addr, p.data_width)
                     for b in range(p.data_width // 8):
                         if (we >> b) & 1:
